@@ -602,4 +602,105 @@ theorem cumRow_error_of_broken {k : RowKey} {x0 : Cell} {rest : List Cell} (h : 
     simp [cumRow, hchk]
 
 
+
+/-- apart from key sets, consecutive cells of the row are compatible (so that a key-set mismatch is
+the only thing that can go wrong) -/
+def AdjOK : List Cell → Prop
+  | a :: b :: rest =>
+    (sameKeys a.values b.values = false ∨ DictCompat a.values b.values) ∧ AdjOK (b :: rest)
+  | _ => True
+
+/-- some two consecutive cells of the row have different key sets -/
+def HasMismatch : List Cell → Prop
+  | a :: b :: rest => sameKeys a.values b.values = false ∨ HasMismatch (b :: rest)
+  | _ => False
+
+/-- the non-value part of `CumRow` -/
+structure CumRowDates (k : RowKey) (row : List Cell) : Prop where
+  key : ∀ c ∈ row, rowKey c = k
+  dates : ∀ c ∈ row, c.datesOk = true
+  evs : row.Pairwise (fun a b => a.ev < b.ev)
+
+theorem CumRowDates.tail {k : RowKey} {c : Cell} {row : List Cell} (h : CumRowDates k (c :: row)) :
+    CumRowDates k row :=
+  ⟨fun x hx => h.key x (List.mem_cons_of_mem _ hx), fun x hx => h.dates x (List.mem_cons_of_mem _ hx),
+   (List.pairwise_cons.mp h.evs).2⟩
+
+theorem incPairs_outcome (k : RowKey) : ∀ (rest : List Cell) (p : Cell), CumRowDates k (p :: rest) →
+    AdjOK (p :: rest) →
+    ((∃ ds, incPairs k p rest = .ok ds) ∧ ¬ HasMismatch (p :: rest)) ∨
+    (incPairs k p rest = .error .triangleError ∧ HasMismatch (p :: rest))
+  | [], _, _, _ => Or.inl ⟨⟨[], rfl⟩, fun h => h⟩
+  | n :: rest, p, h, hadj => by
+    by_cases hsk : sameKeys p.values n.values = true
+    · have hcomp : DictCompat p.values n.values := by
+        rcases hadj.1 with e | e
+        · rw [hsk] at e; cases e
+        · exact e
+      obtain ⟨x, hx1, _⟩ := valuesDiff_add hsk hcomp
+      have hev : p.ev < n.ev := (List.pairwise_cons.mp h.evs).1 n (by simp)
+      have hkn : rowKey n = k := h.key n (by simp)
+      have hdn := datesOk_base (h.dates n (by simp))
+      have hps : k.1.1 = n.ps := by rw [← hkn]; rfl
+      have hpe : k.1.2 = n.pe := by rw [← hkn]; rfl
+      have hd : ({ kind := .incremental, ps := k.1.1, pe := k.1.2, prev := some p.ev, ev := n.ev,
+                   md := k.2, values := x } : Cell).datesOk = true := by
+        simp only [Cell.datesOk, hps, hpe]
+        simp only [Bool.and_eq_true] at hdn ⊢
+        exact ⟨hdn, by simpa using hev⟩
+      rcases incPairs_outcome k rest n h.tail hadj.2 with ⟨⟨ds, hds⟩, hno⟩ | ⟨herr, hmis⟩
+      · left
+        refine ⟨⟨{ kind := .incremental, ps := k.1.1, pe := k.1.2, prev := some p.ev, ev := n.ev,
+                   md := k.2, values := x } :: ds, ?_⟩, ?_⟩
+        · simp only [incPairs, hx1, bind, Except.bind, Cell.mk?]
+          rw [if_pos hd]
+          simp only [hds, pure, Except.pure]
+        · intro hm
+          rcases hm with e | e
+          · rw [hsk] at e; cases e
+          · exact hno e
+      · right
+        refine ⟨?_, Or.inr hmis⟩
+        simp only [incPairs, hx1, bind, Except.bind, Cell.mk?]
+        rw [if_pos hd]
+        simp only [herr]
+    · right
+      have hsk' : sameKeys p.values n.values = false := by simpa using hsk
+      refine ⟨?_, Or.inl hsk'⟩
+      simp [incPairs, valuesDiff, hsk', bind, Except.bind]
+
+/-- outcome of `to_incremental` on one row whose only possible defect is an inconsistent key set:
+it converts iff no two consecutive cells differ in their key sets, and raises `TriangleError` otherwise -/
+theorem incRow_outcome {k : RowKey} {c0 : Cell} {rest : List Cell} (h : CumRowDates k (c0 :: rest))
+    (hv : k.1.1.valid = true) (hadj : AdjOK (c0 :: rest)) :
+    ((∃ ds, incRow k (c0 :: rest) = .ok ds) ∧ ¬ HasMismatch (c0 :: rest)) ∨
+    (incRow k (c0 :: rest) = .error .triangleError ∧ HasMismatch (c0 :: rest)) := by
+  have hk0 : rowKey c0 = k := h.key c0 (by simp)
+  have hd0 := datesOk_base (h.dates c0 (by simp))
+  have hps : k.1.1 = c0.ps := by rw [← hk0]; rfl
+  have hpe : k.1.2 = c0.pe := by rw [← hk0]; rfl
+  have hd : ({ kind := .incremental, ps := k.1.1, pe := k.1.2, prev := some k.1.1.pred,
+               ev := c0.ev, md := k.2, values := c0.values } : Cell).datesOk = true := by
+    have hlt : k.1.1.pred < c0.ev := by
+      apply Date.pred_lt_of_not_lt hv
+      simp only [Bool.and_eq_true] at hd0
+      rw [hps]; simpa using hd0.1.2
+    simp only [Cell.datesOk]
+    rw [← hps, ← hpe] at hd0
+    simp only [Bool.and_eq_true] at hd0 ⊢
+    exact ⟨hd0, by simpa using hlt⟩
+  rcases incPairs_outcome k rest c0 h hadj with ⟨⟨ds, hds⟩, hno⟩ | ⟨herr, hmis⟩
+  · left
+    refine ⟨⟨{ kind := .incremental, ps := k.1.1, pe := k.1.2, prev := some k.1.1.pred,
+               ev := c0.ev, md := k.2, values := c0.values } :: ds, ?_⟩, hno⟩
+    simp only [incRow, bind, Except.bind, Cell.mk?]
+    rw [if_pos hd]
+    simp only [hds, pure, Except.pure]
+  · right
+    refine ⟨?_, hmis⟩
+    simp only [incRow, bind, Except.bind, Cell.mk?]
+    rw [if_pos hd]
+    simp only [herr]
+
+
 end Bermuda
